@@ -45,6 +45,40 @@ async def sk_delete_recreate(hp, w, rnd, ctx):
     await w.observe()
 
 
+async def sk_delete_restart_recreate(hp, w, rnd, ctx):
+    """The UIDVALIDITY counter itself must survive a restart: a mailbox that is
+    deleted, and created again after the server was restarted, gets a larger
+    UIDVALIDITY (its UIDs start over); likewise a mailbox renamed on to the
+    name of a deleted one."""
+    a = w.session()
+    await w.op_create(a, "work")
+    for i in range(3):
+        await w.op_append(a, "work")
+    await w.observe()
+    await w.op_delete(a, "work")
+    await w.restart()
+    a = w.session()
+    await w.op_create(a, "work")
+    await w.op_append(a, "work")
+    await w.op_append(a, "work")
+    await w.observe()
+    # second route: after another restart a new mailbox is created, the old one deleted, the new one renamed on to its name
+    await w.restart()
+    a = w.session()
+    await w.op_create(a, "fresh")
+    await w.op_append(a, "fresh")
+    await w.observe()
+    await w.op_delete(a, "work")
+    await w.op_rename(a, "fresh", "work")
+    await w.op_append(a, "work")
+    await w.observe()
+    await w.restart()
+    a = w.session()
+    await w.op_create(a, "last")
+    await w.op_append(a, "last")
+    await w.observe()
+
+
 async def sk_expunge_all_restart_deliver(hp, w, rnd, ctx):
     a = w.session()
     for i in range(3):
@@ -79,7 +113,7 @@ async def sk_rename_then_refill(hp, w, rnd, ctx):
 class C02(HistProp):
     prop = PROP
     names = ["INBOX", "other", "arch"]
-    skeletons = [sk_expunge_last_then_append, sk_delete_recreate, sk_expunge_all_restart_deliver, sk_rename_then_refill]
+    skeletons = [sk_expunge_last_then_append, sk_delete_recreate, sk_expunge_all_restart_deliver, sk_rename_then_refill, sk_delete_restart_recreate]
     weights = {"append": 12, "store_del": 9, "expunge": 8, "uid_expunge": 4, "copy": 6, "move": 5, "deliver": 6, "restart": 2, "create": 2, "delete": 2,
                "rename": 1, "rename_inbox": 1, "advance": 4, "idle": 1, "fetch_body": 1, "store": 2}
     opts = {"create_names": ["other", "arch", "arch/sub", "tmp"], "rename_targets": ["moved", "arch/moved", "deep/er", "saved"]}
